@@ -109,6 +109,8 @@ const SYNTAX: &[(&str, &str)] = &[
     ("Could not read included file", "incread"),
     ("Could not open included file", "incopen"),
     ("Internal parser error", "internal"),
+    ("Unexpected content after the end of the `server` section", "trailing"),
+    ("Unexpected `}`", "unmatched"),
 ];
 
 fn syntax_err(e: &humphrey_server::config::error::ConfigError) -> String {
